@@ -75,6 +75,15 @@ theorem c_nonpos {sqrt : K → K} {C : Mat K n} {Crs : Vec K n} (hD : Data C Crs
     coefC C st i j ≤ 0 ∧ ∃ st', pairStep sqrt C Crs st i j = .ok st' :=
   ⟨coefC_nonpos hD h i j, _, pairStep_ok hD h i j⟩
 
+/-- the rounding guard in front of that assertion
+(`if 0 < c <= 1e-9 * (C_ij + C_ji) * X_rs[i] * X_rs[j]: c = 0`) never fires in exact arithmetic:
+it leaves `c` unchanged on every state satisfying the invariant, so the pair step is the
+unguarded Prinz update there (`pairStep_ok`); it only matters for floating-point rounding. -/
+theorem guard_never_fires {C : Mat K n} {Crs : Vec K n} (hD : Data C Crs)
+    {st : St K n} (h : Inv st) (i j : Fin n) :
+    guardC C st i j (coefC C st i j) = coefC C st i j :=
+  guardC_of_nonpos i j (coefC_nonpos hD h i j)
+
 /-- the value written by a pair update: for `a ≠ 0` it solves `a v² + b v + c = 0`, the
 discriminant is non-negative and `v ≥ 0`; for `a = 0` it is the old value. -/
 theorem update_is_root {sqrt : K → K} (hs : SqrtSpec sqrt) {C : Mat K n} {Crs : Vec K n}
